@@ -154,6 +154,18 @@ func judgeScan(rt *rapid.T, o *historyOpts, w *world.World, rec *world.ScanRecor
 		o.col.Class("scan:controller-build-failed")
 		return
 	}
+	for _, gr := range rec.Groups {
+		if gr.Processed {
+			o.col.Add("scans-attributed-to-a-group", 1)
+			break
+		}
+	}
+	for _, gr := range rec.Groups {
+		if gr.Processed && gr.Gauge["pods"] != world.GaugeUnset {
+			o.col.Add("scans-with-count-gauges", 1)
+			break
+		}
+	}
 	vs := w.CheckAll(rec)
 	if o.extra != nil {
 		vs = append(vs, o.extra(w, rec)...)
@@ -203,6 +215,15 @@ func historyCheck(t *testing.T, o *historyOpts) {
 	}
 	o.col.Rule += "; distinct cases are counted by the situation digest of each non-trivial scan (per group: configuration numbers, every node's class / taint-age bucket / occupancy / protection, exact request and capacity totals, lock state, actions taken); the coarse class of each non-trivial scan is in class_histogram"
 	rapid.Check(t, func(rt *rapid.T) { runHistory(rt, o) })
+	// observation health: the monitors judge what the journal attributes to a group. If, over a whole run,
+	// no scan could be attributed to any group, the checks have judged nothing - that is a broken
+	// observation point (reported as inconclusive by the driver), not a pass.
+	if !t.Failed() && o.col.Evaluations >= 200 && o.col.Extra["scans-attributed-to-a-group"] == 0 {
+		t.Fatalf("harness: none of %d scans could be attributed to a node group (the journal segmentation found no group start): nothing was judged", o.col.Evaluations)
+	}
+	if !t.Failed() && (o.prop == "C13" || o.prop == "C14") && o.col.Evaluations >= 200 && o.col.Extra["scans-with-count-gauges"] == 0 {
+		t.Fatalf("harness: none of %d scans set the pod / node count gauges the %s history check reads: nothing was judged", o.col.Evaluations, o.prop)
+	}
 }
 
 // weights shared by most history profiles
